@@ -20,7 +20,7 @@ def hist_stats(path, nontrivial_rule=None):
     ncases, samples = 0, []
     cur, distinct = [], set()
     for l in open(path):
-        t = l.split(" ", 1)[0]
+        t = l.split(" ", 1)[0].strip()
         if t == "CASE":
             ncases += 1
             kinds[l.split()[2]] += 1
